@@ -108,8 +108,15 @@ CLAIMS = {
              "but CZ/SK and IS, i.e. exactly the 19 computing countries - instance fact kernel-checked on the "
              "regenerated registration table) any successfully computed check digits validate for ALL component "
              "strings; with the C08 placement theorem the fields read and the check-digit field are found unchanged "
-             "in the assembled BBAN. PARTIAL: generate -> validate nationally, seeded random draws, cross-country "
-             "reuse of one digit text, and parse -> rebuild are exercised dynamically (not proved end to end).",
+             "in the assembled BBAN. End to end (C09EndToEnd): `build_validates` - every BBAN of the country's length "
+             "that from_components returns for a computing country passes validate_national_checksum (the fields the "
+             "algorithm reads, cut from the assembled BBAN, are proved to be the components it was given, the check "
+             "field is proved to hold what was computed); `generate_passes_national` - every IBAN IBAN.generate "
+             "returns for such a country is returned unchanged by IBAN(text, validate_bban=True); for every registry "
+             "naming no method for the country and ALL component strings; `computingOk` discharged by kernel "
+             "evaluation for the 19 countries of the live tables. PARTIAL: seeded random draws (they funnel through "
+             "from_components, tied by the recorded-choice correspondence of C13) and parse -> rebuild are exercised "
+             "dynamically, not proved.",
         design="7 (C09)",
         technique="Lean 4 proof (per-algorithm case analysis) + regenerated registration obligations + "
                   "differential correspondence (generate/validate, rebuild)"),
